@@ -23,6 +23,9 @@ def run(ctx):
                                post_gen=lambda scns: [s for s in scns if True], chunk=4000)
     # the random generator interleaves c01/c04 applications: only those that satisfy the side condition were generated with fangs
     ctx.extra["requests"] = sum(len(o["scn"]["reqs"]) for o in obs)
+    # the composition: the same property on end-to-end runs of the real session loop, validated event by event against Server.tla
+    import props.server as server
+    server.composition(ctx, {"fangs"})
     return finish(ctx, rule=RULE, exhaustive=True,
                   assumptions=["every mount prefix is used by one application and nothing else is registered under it (side condition of the property)",
                                "the fang identity and early-answer behaviour are carried by the harness's TraceFang; its enter/leave log is the observation",
@@ -30,4 +33,11 @@ def run(ctx):
                   trusted=["harness/src/router.rs (TraceFang, application assembly through ohkami::__verif)"])
 
 def replay(ctx, path):
+    doc = json.load(open(path))
+    if isinstance(doc.get("scenario"), dict) and doc["scenario"].get("composition"):
+        import props.server as server
+        rc = server.replay_composition(ctx, doc)
+        if rc:
+            print("VIOLATION property=%s replay=%s" % (ctx.prop, path))
+        return rc
     return standard_replay(ctx, path, sub="router", trace=TRACE)
